@@ -387,6 +387,9 @@ def c_argpartition(ip, st, args, kw, node):
             st.pc += union_count_facts(st, masks[1], U)
             obl(st, 'working-set-covers-support-and-unpenalised', k >= U, node, prop='C01', counts=cs, k=k)
             st.ghost.setdefault('covers', {})[out.loc] = True
+            # progress: unless it holds every feature, the working set has room for at least one feature that is not forced in
+            # (otherwise no penalised coefficient can ever enter and the outer loop makes no progress below alpha_max)
+            obl(st, 'working-set-has-room-for-a-new-feature', z3.Or(k >= U + 1, k >= n), node, prop='C16', counts=cs, k=k)
     return out
 
 
